@@ -7,7 +7,8 @@ What is extracted as DATA / EXPRESSION TREES (consumed by `CijProofs/Lemmas/Fill
     evaluator (no import of cij / sympy);
   * the regex literals of the fit loop and of the drop loop, and whether the name is lower-cased before it is matched;
   * the value written into a selector row;
-  * the test that lets a user-supplied relations file replace the packaged one (boolean tree over `is_file` probes);
+  * the test that lets a user-supplied relations file replace the packaged one (boolean tree over `is_file` probes and
+    `Path(system).name != system` = "has a directory part");
   * how an equation line `lhs = r1 = r2` becomes rows (separator, index of the left-hand side, first right-hand side,
     signs of `parts[0] - part`), together with the packaged relation files PART BY PART (linear forms);
   * the order of the stacked equations (tuples handed to `numpy.concatenate`), broadcast of the relations' constants;
@@ -267,6 +268,15 @@ def bool_tree(n, names, what):
             for p in reversed(parts[:-1]): r = f"(FillBool.{k} {p} {r})"
             return r
         if isinstance(n, ast.UnaryOp) and isinstance(n.op, ast.Not): return f"(FillBool.not {go(n.operand)})"
+        if isinstance(n, ast.Compare) and len(n.ops) == 1 and isinstance(n.ops[0], (ast.Eq, ast.NotEq)):
+            # `Path(x).name != x` (either side): the string has a directory part, i.e. it is not a bare name
+            l, r = n.left, n.comparators[0]
+            if isinstance(l, ast.Name): l, r = r, l
+            if isinstance(l, ast.Attribute) and l.attr == "name" and isinstance(l.value, ast.Call) and ast.unparse(l.value.func) == "Path" \
+                    and len(l.value.args) == 1 and not l.value.keywords and isinstance(l.value.args[0], ast.Name) \
+                    and isinstance(r, ast.Name) and r.id == l.value.args[0].id and r.id in names:
+                t = f'(FillBool.probe FillProbe.hasDirPart FillName.{names[r.id]})'
+                return t if isinstance(n.ops[0], ast.NotEq) else f"(FillBool.not {t})"
         if isinstance(n, ast.Compare) and len(n.ops) == 1 and type(n.ops[0]) in CMP:
             return f"(FillBool.cmp FillCmp.{CMP[type(n.ops[0])]} {atom(n.left)} {atom(n.comparators[0])})"
         if isinstance(n, ast.Call) and ast.unparse(n.func) == "numpy.any" and len(n.args) == 1 and not n.keywords:
@@ -348,7 +358,7 @@ FILL_FULL = [
     "for v4, v5 in elast.items():\n    v4 = v4.lower()\n    if not re.search('c(\\\\d)(\\\\d)', v4):\n        continue\n    v6 = numpy.zeros(v1)\n"
     "    v6[list(v0.keys()).index(v4)] = 1\n    v2.append(v6)\n    v3.append(v5.to_numpy())",
     "v2 = numpy.array(v2)", "v3 = numpy.array(v3)", "v7 = Path('constraints') / system", "v7 = get_data_fname(str(v7))",
-    "if not Path(v7).is_file() and Path(system).is_file():\n    v7 = system", "v8 = []",
+    "if (Path(system).name != system or not Path(v7).is_file()) and Path(system).is_file():\n    v7 = system", "v8 = []",
     "with open(v7) as v9:\n    for v10 in v9:\n        v11 = [parse_expr(w2) for w2 in v10.split('=')]\n        for v12 in v11[1:]:\n"
     "            v8.append(v11[0] - v12)",
     "if len(v8) > 0:\n    v6, v13 = sympy.linear_eq_to_matrix(v8, *v0.values())\n    v6 = numpy.array(v6).astype(numpy.float64)\n"
@@ -788,6 +798,7 @@ inductive FillName
 /-- `pathlib.Path` probes -/
 inductive FillProbe
   | isFile | pathExists | isDir
+  | hasDirPart      -- `Path(x).name != x`: the string is not a bare name
   deriving DecidableEq, Repr
 
 /-- the two blocks of the stacked system -/
